@@ -244,6 +244,7 @@ def xcheck_contract(key, n_cases, seed):
     rng = random.Random(hash((key, seed)) & 0xFFFFFFFF)
     done = 0
     tries = 0
+    extra = 0
     while done < n_cases and tries < n_cases * 60:
         tries += 1
         try:
@@ -276,9 +277,10 @@ def xcheck_contract(key, n_cases, seed):
             out["cpython"] = (f"raised {type(exc).__name__}: {exc}" if exc is not None else repr(res))[:300]
             return out
         done += 1
+        extra += out.get("extra_paths", 0)
     if done == 0:
         return {"status": "skipped", "cases": 0, "detail": "no sampled input satisfied requires"}
-    return {"status": "ok", "cases": done, "detail": ""}
+    return {"status": "ok", "cases": done, "detail": "", "over_approximated_paths": extra}
 
 
 def _symbolic_case(c, ref, params, fields, res, exc, after):
@@ -340,15 +342,23 @@ def _symbolic_case(c, ref, params, fields, res, exc, after):
         if "NotCheckable" in r.message:
             return {"status": "skipped", "detail": r.message.splitlines()[0][:200]}
         return {"status": "error", "detail": r.message[:1500]}
-    bad = [o for o in r.obligations if o["status"] not in ("discharged", "covered")]
-    # vacuity: the equated input must be feasible and reach an exit
-    reached = any(o["name"].endswith(("cover@exit",)) or "cover@raise" in o["name"] for o in r.obligations if o["status"] == "covered")
-    if bad:
-        b = bad[0]
+    # Soundness of the encoding = CPython's behaviour is one of the behaviours pyvc explores.  pyvc may explore
+    # more (a builtin model that over-approximates, e.g. "may raise ValueError"): that is imprecision, not
+    # unsoundness.  So: some explored path must agree with CPython completely (same exit kind, every clause
+    # discharged); other paths are counted as `extra_paths`.
+    want = "/post/" if exc is None else "/on-raise/"
+    by_path = {}
+    for o in r.obligations:
+        if o["kind"] == "cover":
+            continue
+        by_path.setdefault(tuple(o["path"]), []).append(o)
+    agree = [p for p, obs in by_path.items() if any(want in o["name"] for o in obs) and all(o["status"] == "discharged" for o in obs if want in o["name"] or "/post/" in o["name"] or "/on-raise/" in o["name"])
+             and not any(("/post/" if want == "/on-raise/" else "/on-raise/") in o["name"] for o in obs)]
+    if not agree:
+        bad = [o for o in r.obligations if o["status"] not in ("discharged", "covered") and o["kind"] != "cover"]
+        b = bad[0] if bad else {"name": "no path of the kind CPython took", "status": "", "model": None}
         return {"status": "mismatch", "detail": f"{b['name']} {b['status']} {str(b.get('model'))[:300]}"}
-    if not reached:
-        return {"status": "mismatch", "detail": "no exit reached for the sampled input (encoding infeasible where CPython runs)"}
-    return {"status": "ok", "detail": ""}
+    return {"status": "ok", "detail": "", "extra_paths": len(by_path) - len(agree)}
 
 
 def run_for_property(pid, n_cases, seed):
